@@ -204,7 +204,9 @@ def _trie(ck: Checker) -> None:
     load = cls.methods.get("_load")
     if dump is None or load is None:
         raise AnalysisError("DataIndexTrie._dump/_load vanished")
-    d_src = [norm(r.value) for r in walk_own(dump.node) if isinstance(r, ast.Return) and r.value is not None]
+    from ..an import result_sites
+
+    d_src = [norm(st.value) for st in result_sites(ck.cfg(dump))]
     ck.require(any("value.to_dict()" in s and s.startswith("super()._dump(key") for s in d_src), "C20.trie", dump, dump.node, "_dump serialises value.to_dict()", f"_dump returns {d_src}")
     gl = ck.cfg(load)
     from ..an import flows_from_calls, reaching_defs
@@ -212,12 +214,16 @@ def _trie(ck: Checker) -> None:
     fdc = [c for c in walk_own(load.node) if isinstance(c, ast.Call) and norm(c.func) == "DataIndexEntry.from_dict"]
     sup = [c for c in walk_own(load.node) if isinstance(c, ast.Call) and isinstance(c.func, ast.Attribute) and c.func.attr == "_load" and norm(c.func.value).startswith("super(")]
     okl = bool(fdc) and bool(sup)
-    main_ret = [n for n in gl.nodes.values() if n.kind == "stmt" and isinstance(n.ast, ast.Return) and isinstance(n.ast.value, ast.Name) and flows_from_calls(gl, n, n.ast.value, fdc)]
-    okl = okl and bool(main_ret)
-    for r in main_ret:
-        nm = r.ast.value.id
-        keyset = [n for n in gl.nodes.values() if n.kind == "stmt" and isinstance(n.ast, ast.Assign) and norm(n.ast.targets[0]) == f"{nm}.key" and norm(n.ast.value) == load.pos_params[1]]
-        okl = okl and bool(keyset) and all(avoiding_path(gl, r.id, lambda x, k=k: x.id == k.id) is None for k in keyset[:1])
+    # the rebuilt entry: the local bound to from_dict(...); it must get `.key = key` before it can be returned
+    built = [n for n in gl.nodes.values() if n.kind == "stmt" and isinstance(n.ast, ast.Assign) and isinstance(n.ast.targets[0], ast.Name) and any(n.ast.value is c for c in fdc)]
+    okl = okl and bool(built)
+    for bn in built:
+        nm = bn.ast.targets[0].id
+        keyset = {n.id for n in gl.nodes.values() if n.kind == "stmt" and isinstance(n.ast, ast.Assign) and norm(n.ast.targets[0]) == f"{nm}.key" and norm(n.ast.value) == load.pos_params[1]}
+        r = gl.reach([d for lab, d in bn.succ if lab != "exc"], skip_node=lambda x: x.id in keyset, skip_edge=lambda a, l, b: l == "exc")
+        okl = okl and bool(keyset) and gl.exit not in r
+        # and it is what the method hands out
+        okl = okl and any(flows_from_calls(gl, st.node, st.value, fdc) or (isinstance(st.value, ast.Name) and st.value.id == nm) for st in result_sites(gl))
     for c in fdc:
         okl = okl and bool(c.args) and flows_from_calls(gl, next(n for n in gl.nodes.values() if any(x is c for x in calls_at(n))), c.args[0], sup)
     ck.require(okl, "C20.trie", load, load.node, "_load rebuilds the entry with from_dict(super()._load(...)) and restores its key", "_load does not rebuild DataIndexEntry.from_dict(<decoded dict>) with entry.key = key")
